@@ -625,7 +625,7 @@ def rule_reader_lines(ctx, res, rule_id):
     if bad:
         res.violation(rule_id, raw.qual, 'section lines reach the '
                       'conversion unchanged (UTF-8 decode only)', bad[0],
-                      raw.module.loc(bad[1]))
+                      raw.module.loc(bad[1]), semantic=True)
     elif unknown:
         res.undecided(rule_id, raw.qual, 'section lines reach the '
                       'conversion unchanged (UTF-8 decode only)',
